@@ -531,7 +531,10 @@ def m_dict(eng, *a, **kw):
 def m_set(eng, x=()):
     items = list(eng.iterate(x))
     if deep_sym(items):
-        raise Unsupported("set() of symbolic items")
+        st = set()
+        for it in items:
+            eng.set_add(st, it)          # equality of symbolic items decided (forking) as they are added
+        return st
     return set(items)
 
 
